@@ -190,8 +190,8 @@ fn check_write(name: &str, map: &mut Beatmap, good: &[u8], fault: WriteFault, at
         }
     };
     match fault {
-        WriteFault::Err(kind) | WriteFault::Flush(kind) | WriteFault::ErrOnce(kind) => {
-            let must_fail = matches!(fault, WriteFault::Flush(_)) || at < good.len();
+        WriteFault::Err(kind) | WriteFault::Flush(kind) | WriteFault::ErrOnce(kind) | WriteFault::FlushInterruptThenErr(_, kind) => {
+            let must_fail = matches!(fault, WriteFault::Flush(_) | WriteFault::FlushInterruptThenErr(..)) || at < good.len();
             match res {
                 Err(e) if must_fail && e.kind() == kind => {}
                 Err(e) if must_fail => acc.violation(Violation::new(
@@ -289,8 +289,10 @@ fn write_side(tier: Tier, acc_out: &mut Acc) -> Value {
             check_write(name, &mut map, &good, WriteFault::Flush(kind), 0, acc);
         }
         // a flush that is merely interrupted (once, three times) is as transient as an interrupted write
-        for n in [1usize, 3] {
+        // (the writer holds the bytes back until a flush succeeds); a hard error after any number of interruptions surfaces
+        for n in [1usize, 3, 15, 16, 17, 64, 300] {
             check_write(name, &mut map, &good, WriteFault::FlushInterrupt(n), 0, acc);
+            check_write(name, &mut map, &good, WriteFault::FlushInterruptThenErr(n, ErrorKind::Other), 0, acc);
         }
         for n in [1usize, 2, 7, 16] {
             if good.len() > 20_000 && n < 7 {
@@ -312,7 +314,7 @@ fn write_side(tier: Tier, acc_out: &mut Acc) -> Value {
     });
     let cur = std::mem::take(acc_out);
     *acc_out = cur.merge(a);
-    json!({"maps": files.len(), "all_output_offsets_up_to_bytes": dense, "faults": ["Err(kind) x5", "one-off Err then working again", "Ok(0)", "failing flush x5", "flush interrupted once / three times", "short writes 1/2/7/16", "Interrupted at every write call"]})
+    json!({"maps": files.len(), "all_output_offsets_up_to_bytes": dense, "faults": ["Err(kind) x5", "one-off Err then working again", "Ok(0)", "failing flush x5", "buffering writer whose flush is interrupted 1/3/15/16/17/64/300 times, then succeeds or fails hard", "short writes 1/2/7/16", "Interrupted at every write call"]})
 }
 
 /// Path entry points: a path that can be opened but not read (a directory), a missing file, a path that cannot be
@@ -412,6 +414,8 @@ pub fn replay(case: &Value) -> Vec<Violation> {
                     WriteFault::Err(kind)
                 } else if f.starts_with("Zero") {
                     WriteFault::Zero
+                } else if f.starts_with("FlushInterruptThenErr") {
+                    WriteFault::FlushInterruptThenErr(num(f), ErrorKind::Other)
                 } else if f.starts_with("FlushInterrupt") {
                     WriteFault::FlushInterrupt(num(f))
                 } else if f.starts_with("Flush") {
